@@ -196,6 +196,12 @@ type tkGen struct {
 	// mockEVM: the app runs on the repository's in-memory mock (shared chains): deploy at most one
 	// contract (the mock puts every contract on one address) and never burn above an ERC20 balance.
 	mockEVM bool
+	// splice stanza: the account that plays it, and whether its last step was sent
+	spliceBy   string
+	spliceSym  string
+	spliceDone bool
+	// wordAmt: the next conversion asks for a whole number of 64-bit words (set while a contract fault is armed)
+	wordAmt bool
 }
 
 func newTkGen(run *ev.Run, r *rig.Rig, evm *tkEVM, hostile bool) *tkGen {
@@ -443,6 +449,72 @@ func (g *tkGen) zeroCap() (rig.Tx, bool) {
 		}
 		return g.mk(a, &tkTag{Kind: "transfer", Role: "owner", Sym: t.Symbol}, &v1.MsgTransferTokenOwner{SrcOwner: t.Owner, DstOwner: dst, Symbol: t.Symbol})
 	}
+}
+
+// splice walks one attack on the (owner, symbol) index, whose key is the owner's bytes followed by the symbol with nothing
+// in between: A issues the token "spl"+S and hands it to B; A issues the token S and hands it to the 23-byte address
+// bytes(A)+"spl" (addresses of any length up to 255 are valid); then A, the previous owner, hands "spl"+S to a third
+// account. Each call takes the next step.
+func (g *tkGen) splice() (rig.Tx, bool) {
+	const pfx = "spl"
+	var victim, bait *v1.Token
+	if g.spliceDone {
+		return rig.Tx{}, false
+	}
+	if g.spliceSym != "" {
+		victim = g.s.bySymbol(g.spliceSym)
+	}
+	if victim == nil {
+		a := g.anyAcc()
+		if a == nil {
+			return rig.Tx{}, false
+		}
+		sym := pfx + "b" + g.fresh(4)
+		g.spliceBy, g.spliceSym = a.Addr.String(), sym
+		return g.mk(a, &tkTag{Kind: "issue", Role: "owner", Var: "splice-victim", Sym: sym}, &v1.MsgIssueToken{Symbol: sym, Name: "splice victim", Scale: 6, MinUnit: "ms" + g.fresh(5), InitialSupply: 1000, MaxSupply: 2000, Mintable: true, Owner: a.Addr.String()})
+	}
+	a := g.acc(g.spliceBy)
+	if a == nil || g.spliceDone {
+		return rig.Tx{}, false
+	}
+	other := func(except ...string) string {
+		for _, b := range g.accs {
+			ok := !g.poisoned[b.Addr.String()]
+			for _, e := range except {
+				ok = ok && b.Addr.String() != e
+			}
+			if ok {
+				return b.Addr.String()
+			}
+		}
+		return ""
+	}
+	baitSym := victim.Symbol[len(pfx):]
+	bait = g.s.bySymbol(baitSym)
+	crafted := sdk.AccAddress(append(append([]byte{}, a.Addr.Bytes()...), pfx...)).String()
+	switch {
+	case victim.Owner == a.Addr.String():
+		dst := other(a.Addr.String())
+		if dst == "" {
+			return rig.Tx{}, false
+		}
+		return g.mk(a, &tkTag{Kind: "transfer", Role: "owner", Rcpt: "other", Var: "splice-victim-handed-on", Sym: victim.Symbol}, &v1.MsgTransferTokenOwner{SrcOwner: a.Addr.String(), DstOwner: dst, Symbol: victim.Symbol})
+	case bait == nil:
+		return g.mk(a, &tkTag{Kind: "issue", Role: "owner", Var: "splice-bait", Sym: baitSym}, &v1.MsgIssueToken{Symbol: baitSym, Name: "splice bait", Scale: 0, MinUnit: "mb" + g.fresh(5), InitialSupply: 1, MaxSupply: 10, Mintable: false, Owner: a.Addr.String()})
+	case bait.Owner == a.Addr.String():
+		return g.mk(a, &tkTag{Kind: "transfer", Role: "owner", Rcpt: "owner-bytes-plus-symbol-prefix", Var: "splice-bait-handed-to-crafted-address", Sym: baitSym}, &v1.MsgTransferTokenOwner{SrcOwner: a.Addr.String(), DstOwner: crafted, Symbol: baitSym})
+	case bait.Owner == crafted:
+		dst := other(a.Addr.String(), victim.Owner)
+		if dst == "" {
+			return rig.Tx{}, false
+		}
+		g.spliceDone = true
+		g.run.Count("previous-owner-hands-over-after-splicing-the-owner-index-key", 1)
+		return g.mk(a, &tkTag{Kind: "transfer", Role: "prev-owner", Rcpt: "accomplice", Var: "spliced-owner-index-key", Sym: victim.Symbol}, &v1.MsgTransferTokenOwner{SrcOwner: a.Addr.String(), DstOwner: dst, Symbol: victim.Symbol})
+	}
+	// the bait went elsewhere meanwhile: start over with a new pair
+	g.spliceSym = ""
+	return rig.Tx{}, false
 }
 
 // issueDup re-issues a taken symbol and/or min unit, by anyone.
@@ -914,6 +986,8 @@ func (g *tkGen) make(kind string) (rig.Tx, bool) {
 		return g.issueShadow()
 	case "zero-cap":
 		return g.zeroCap()
+	case "splice":
+		return g.splice()
 	case "mint":
 		return g.mint(false)
 	case "mint-hostile":
@@ -996,6 +1070,8 @@ type tkC09 struct {
 	r     *rig.Rig
 	g     *tkGen
 	model *tkModel
+	// sharedIdxKeys: raw owner-index keys that two (owner, symbol) pairs have claimed at the same time
+	sharedIdxKeys map[string]bool
 }
 
 func runTokenC09(run *ev.Run, c int) {
@@ -1010,12 +1086,12 @@ func runTokenC09(run *ev.Run, c int) {
 	// the first blocks follow a script so that every required scenario class occurs by construction
 	script := [][]string{
 		{"issue", "issue", "issue", "issue"}, {"issue", "issue", "send", "send"}, {"mint", "mint", "burn", "burn"},
-		{"issue-dup", "issue-dup", "burn", "edit"}, {"transfer", "burn", "edit"}, {"transfer-hostile", "mint-hostile", "edit-hostile"},
-		{"transfer", "mint", "issue-dup", "zero-cap"}, {"transfer-hostile", "mint-hostile", "edit-hostile", "edit", "zero-cap"}, {"params", "issue", "mint", "zero-cap"},
+		{"issue-dup", "issue-dup", "burn", "edit", "splice"}, {"transfer", "burn", "edit", "splice"}, {"transfer-hostile", "mint-hostile", "edit-hostile", "splice"},
+		{"transfer", "mint", "issue-dup", "zero-cap", "splice"}, {"transfer-hostile", "mint-hostile", "edit-hostile", "edit", "zero-cap", "splice"}, {"params", "issue", "mint", "zero-cap", "splice"},
 		{"params-tax0"}, {"issue-plain", "mint-plain"}, {"issue-plain", "mint-plain"}, {"params-tax1"}, {"issue-plain", "mint-plain"}, {"issue-plain", "mint-plain"},
 	}
-	kinds := []string{"issue", "issue-dup", "mint", "mint-hostile", "edit", "edit-hostile", "burn", "burn-hostile", "transfer", "transfer-hostile", "params", "send"}
-	weights := []int{10, 7, 16, 6, 16, 5, 16, 2, 7, 4, 4, 7}
+	kinds := []string{"issue", "issue-dup", "mint", "mint-hostile", "edit", "edit-hostile", "burn", "burn-hostile", "transfer", "transfer-hostile", "params", "send", "splice"}
+	weights := []int{10, 7, 16, 6, 16, 5, 16, 2, 7, 4, 4, 7, 2}
 	for b := 0; b < blocks; b++ {
 		g.begin()
 		var txs []rig.Tx
@@ -1049,7 +1125,7 @@ func runTokenC09(run *ev.Run, c int) {
 		"mint-by-non-owner-rejected", "edit-by-non-owner-rejected", "transfer-by-non-owner-rejected",
 		"previous-owner-rejected", "owner-after-2-transfers-ok", "mint-non-mintable-rejected", "mint-above-cap-rejected",
 		"edit-max-at-or-above-circulating-ok", "edit-max-below-circulating-attempted", "fee-split-evaluated",
-		"fee-at-tax=0", "fee-at-tax=1", "fee-at-mint-ratio=0", "fee-at-mint-ratio=1",
+		"fee-at-tax=0", "fee-at-tax=1", "fee-at-mint-ratio=0", "fee-at-mint-ratio=1", "previous-owner-hands-over-after-splicing-the-owner-index-key",
 	} {
 		run.Require(k, 1)
 	}
@@ -1475,7 +1551,39 @@ func (d *tkC09) checkRegistry(tx *rig.TxRecord, tag *tkTag, post *tkSnap) {
 			run.Violation("C09:token:min-unit-index", detail, "index entry %s -> %s has no matching token", mu, sym)
 		}
 	}
-	if df := tkSetDiff(wantOwnerIdx, post.OwnerIdx); len(df) > 0 {
+	// The index key is the owner's bytes followed by the symbol with nothing in between, so two (owner, symbol) pairs
+	// whose concatenations coincide share one entry (possible only with owners of different address lengths). The
+	// statement says nothing about the listing by owner; such keys are counted and left out of the comparison for good
+	// (an entry written for one pair is overwritten or deleted on behalf of the other).
+	rawOf := func(k string) string {
+		i := strings.IndexByte(k, '/')
+		return k[:i] + hex.EncodeToString([]byte(k[i+1:]))
+	}
+	if d.sharedIdxKeys == nil {
+		d.sharedIdxKeys = map[string]bool{}
+	}
+	users := map[string]int{}
+	for k := range wantOwnerIdx {
+		users[rawOf(k)]++
+	}
+	for rk, n := range users {
+		if n > 1 && !d.sharedIdxKeys[rk] {
+			d.sharedIdxKeys[rk] = true
+			run.Count("info-owner-index-key-shared-by-two-(owner,symbol)-pairs(outside the statement)", 1)
+		}
+	}
+	gotOwnerIdx := map[string]bool{}
+	for k := range post.OwnerIdx {
+		if strings.HasPrefix(k, "?/") || !d.sharedIdxKeys[rawOf(k)] {
+			gotOwnerIdx[k] = true
+		}
+	}
+	for k := range wantOwnerIdx {
+		if d.sharedIdxKeys[rawOf(k)] {
+			delete(wantOwnerIdx, k)
+		}
+	}
+	if df := tkSetDiff(wantOwnerIdx, gotOwnerIdx); len(df) > 0 {
 		run.Violation("C09:token:owner-index", detail, "tokens-by-owner index differs from the owners on record: %v", df)
 	}
 	// burn tally
@@ -1651,6 +1759,13 @@ func (g *tkGen) toERC20() (rig.Tx, bool) {
 	}
 	var amt *big.Int
 	switch k := rng.Intn(8); {
+	case g.wordAmt && bal.Cmp(pow2(64)) >= 0 && h[1] != rig.BondDenom:
+		tag.Var += "whole-64-bit-words"
+		amt = new(big.Int).Mul(pow2(64), big.NewInt(1+int64(rng.Intn(3))))
+		if amt.Cmp(bal) > 0 {
+			amt = pow2(64)
+		}
+		g.run.Count("conversion-of-whole-64-bit-words-under-a-faulty-contract", 1)
 	case k == 0:
 		tag.Var += "one"
 		amt = big.NewInt(1)
@@ -1725,6 +1840,12 @@ func (g *tkGen) fromERC20() (rig.Tx, bool) {
 	tag := &tkTag{Kind: "from-erc20", Role: "holder", Sym: h.t.Symbol}
 	var amt *big.Int
 	switch k := rng.Intn(8); {
+	case g.wordAmt && h.b.Cmp(pow2(64)) >= 0:
+		tag.Var, amt = "whole-64-bit-words", new(big.Int).Mul(pow2(64), big.NewInt(1+int64(rng.Intn(3))))
+		if amt.Cmp(h.b) > 0 {
+			amt = pow2(64)
+		}
+		g.run.Count("conversion-of-whole-64-bit-words-under-a-faulty-contract", 1)
 	case k == 0:
 		tag.Var, amt = "one", big.NewInt(1)
 	case k == 1 && h.b.Sign() > 0:
@@ -2099,6 +2220,7 @@ func runTokenERC20(run *ev.Run, c int) {
 				}
 			}
 			_ = arm
+			g.wordAmt = false
 		}
 		firedBefore := tkCopyCounts(evm.fired)
 		br := r.DeliverBlock(time.Duration(1+rng.Intn(20))*time.Second, txs)
@@ -2186,15 +2308,17 @@ func (d *tkC10) armIntent(kind string) (rig.Tx, bool) {
 	var f tkFault
 	switch kind {
 	case "to-erc20":
-		f = pick(rng, tkFault{"mint", 0, "err"}, tkFault{"mint", 0, "revert"}, tkFault{"mint", 0, "noop"}, tkFault{"mint", 0, "short"}, tkFault{"mint", 0, "over"},
+		f = pick(rng, tkFault{"mint", 0, "err"}, tkFault{"mint", 0, "revert"}, tkFault{"mint", 0, "noop"}, tkFault{"mint", 0, "short"}, tkFault{"mint", 0, "over"}, tkFault{"mint", 0, "short64"}, tkFault{"mint", 0, "over64"}, tkFault{"mint", 0, "noop"},
 			tkFault{"mint", 0, "wrongholder"}, tkFault{"balanceOf", 0, "lie"}, tkFault{"balanceOf", 1, "lie"}, tkFault{"balanceOf", 0, "err"}, tkFault{"balanceOf", 1, "revert"})
 	case "from-erc20":
-		f = pick(rng, tkFault{"burn", 0, "err"}, tkFault{"burn", 0, "revert"}, tkFault{"burn", 0, "noop"}, tkFault{"burn", 0, "short"}, tkFault{"burn", 0, "over"},
+		f = pick(rng, tkFault{"burn", 0, "err"}, tkFault{"burn", 0, "revert"}, tkFault{"burn", 0, "noop"}, tkFault{"burn", 0, "short"}, tkFault{"burn", 0, "over"}, tkFault{"burn", 0, "short64"}, tkFault{"burn", 0, "over64"}, tkFault{"burn", 0, "noop"},
 			tkFault{"burn", 0, "wrongholder"}, tkFault{"balanceOf", 0, "lie"}, tkFault{"balanceOf", 1, "lie"}, tkFault{"balanceOf", 1, "err"})
 	default:
 		f = pick(rng, tkFault{"create", 0, "err"}, tkFault{"create", 0, "revert"})
 	}
 	tag := &tkTag{Kind: "arm", Fault: f.Method + ":" + f.Kind}
+	// a call without effect, or one that is off by a 64-bit word, meets an amount that is a whole number of 64-bit words
+	d.g.wordAmt = f.Kind == "noop" || f.Kind == "short64" || f.Kind == "over64"
 	return d.r.InjectOp(a, tag, "tk-evm-arm", tkOpArgs{Faults: []tkFault{f}}), true
 }
 
